@@ -54,6 +54,71 @@ theorem sliceRange1_zero_big (d en : Int) (hd : 0 ≤ d) (he : d ≤ en) : slice
   simp only [sliceRange1]
   refine Prod.ext ?_ ?_ <;> simp only [Int.min_def, Int.max_def] <;> (repeat' split) <;> omega
 
+/-- Python's `l[i]` (negative wrap, IndexError out of range) is the ONNX Gather bounds rule. -/
+theorem pyIndex_eq_onnx {α} (l : List α) (i : Int) :
+    pyIndex l i = (if -(l.length : Int) ≤ i ∧ i < (l.length : Int) then l[(if i < 0 then i + (l.length : Int) else i).toNat]? else none) := by
+  unfold pyIndex
+  by_cases hi : i < 0
+  · simp only [hi, if_true]
+    by_cases hb : -(l.length : Int) ≤ i
+    · have h1 : ¬ (i + (l.length : Int) < 0) := by omega
+      have h2 : -(l.length : Int) ≤ i ∧ i < (l.length : Int) := ⟨hb, by omega⟩
+      simp only [h1, if_false, h2, and_self, if_true]
+    · have h1 : i + (l.length : Int) < 0 := by omega
+      have h2 : ¬ (-(l.length : Int) ≤ i ∧ i < (l.length : Int)) := fun h => hb h.1
+      simp only [h1, if_true, h2, if_false]
+  · simp only [hi, if_false]
+    by_cases hb : i < (l.length : Int)
+    · have h2 : -(l.length : Int) ≤ i ∧ i < (l.length : Int) := ⟨by omega, hb⟩
+      simp only [h2, and_self, if_true]
+    · have h2 : ¬ (-(l.length : Int) ≤ i ∧ i < (l.length : Int)) := fun h => hb h.2
+      simp only [h2, if_false]
+      rw [List.getElem?_eq_none_iff]
+      omega
+
+theorem onnxGatherAxis0_eq (l idx : List Int) : onnxGatherAxis0 l idx = seqOpt (idx.map (pyIndex l)) := by
+  unfold onnxGatherAxis0
+  show seqOpt (List.map _ idx) = seqOpt (List.map (pyIndex l) idx)
+  congr 1
+  apply List.map_congr_left
+  intro i _
+  exact (pyIndex_eq_onnx l i).symm
+
+/-- whether `l[i]` is defined depends only on the length -/
+theorem pyIndex_isSome_of_length {α β} (a : List α) (b : List β) (h : a.length = b.length) (i : Int) :
+    (pyIndex a i).isSome = (pyIndex b i).isSome := by
+  simp only [pyIndex, h]
+  by_cases hn : (if i < 0 then i + (b.length : Int) else i) < 0
+  · simp only [hn, if_true]; rfl
+  · simp only [hn, if_false]
+    cases ha : a[(if i < 0 then i + (b.length : Int) else i).toNat]? with
+    | none =>
+      rw [List.getElem?_eq_none_iff] at ha
+      have : b[(if i < 0 then i + (b.length : Int) else i).toNat]? = none := by
+        rw [List.getElem?_eq_none_iff]; omega
+      simp only [this]; rfl
+    | some v =>
+      have hlt : (if i < 0 then i + (b.length : Int) else i).toNat < a.length := by
+        have := List.getElem?_eq_some_iff.mp ha; exact this.1
+      have : ∃ w, b[(if i < 0 then i + (b.length : Int) else i).toNat]? = some w :=
+        ⟨b[(if i < 0 then i + (b.length : Int) else i).toNat]'(by omega), List.getElem?_eq_getElem (by omega)⟩
+      obtain ⟨w, hw⟩ := this
+      simp only [hw, Option.isSome_some]
+
+theorem seqOpt_isNone_iff {α} (l : List (Option α)) : seqOpt l = none ↔ ∃ x ∈ l, x = none := by
+  induction l with
+  | nil => simp [seqOpt]
+  | cons a t ih =>
+    cases a with
+    | none => simp [seqOpt]
+    | some v =>
+      simp only [seqOpt, Option.map_eq_none_iff, ih, List.mem_cons]
+      constructor
+      · rintro ⟨x, hx, rfl⟩; exact ⟨none, Or.inr hx, rfl⟩
+      · rintro ⟨x, hx | hx, rfl⟩
+        · cases hx
+        · exact ⟨none, hx, rfl⟩
+
 theorem admits_map_known_self (σ : String → Nat) : ∀ (t : List Int), Admits σ (t.map Dim.known) t
   | [] => by simp only [List.map_nil, Admits]
   | a :: t => by simp only [List.map_cons, Admits, Dim.Admits, true_and]; exact admits_map_known_self σ t
